@@ -133,7 +133,55 @@ def sym_groups(tier, seed):
             sc = diag_scripts(M, r2, 16 if quick else 80, G.OPS)
             calls = ['VWD(Sym%d, (%d), (%d,%d), "%s");' % (sz, M, M, M, s) for s in sc]
             groups.append({"key": "%s/sz%d/vea0/diag" % (isa, sz), "header": "view_write_sym.h", "isa": isa, "opt": "-O0", "defs": [], "calls": calls})
+    groups.append(scalar_sym_group(tier, seed, random.Random(seed * 31 + 7)))
     return only_filter(groups)
+
+SW_DIMS = {1: (5,), 2: (3, 4), 3: (2, 3, 4), 4: (2, 3, 4, 5), 5: (2, 3, 4, 5, 6)}     # pairwise distinct extents
+
+def scalar_scripts(dims, rng, ops, cap, per_line=48):
+    """every index tuple in [-d, d) on every axis (sampled above `cap`), packed `per_line` writes to a script"""
+    import itertools
+    tuples = list(itertools.product(*[range(-d, d) for d in dims]))
+    if len(tuples) > cap:
+        # keep every tuple with a negative index on the last axes (the wrap of each axis), sample the rest
+        tuples = rng.sample(tuples, cap)
+    rng.shuffle(tuples)
+    ws = []
+    for k, t in enumerate(tuples):
+        op = ops[k % len(ops)]
+        c = rng.choice([2, 4, -2]) if op == "div" else rng.choice([2, 3, 5, -1, 7])
+        ws.append("%s.%d.%s" % (op, c, "_".join(str(x) for x in t)))
+    return ["/".join(ws[i:i + per_line]) for i in range(0, len(ws), per_line)]
+
+def scalar_sym_group(tier, seed, rng):
+    quick = tier == "quick"
+    calls = []
+    for rank, dims in SW_DIMS.items():
+        for cont, sz in (("SW", 4), ("SWM", 8)) if (rank + seed) % 2 else (("SWM", 4), ("SW", 8)):
+            cap = {1: 10**6, 2: 10**6, 3: 10**6, 4: 700, 5: 900}[rank] if quick else 10**6
+            for s in scalar_scripts(dims, rng, ["set", "add", "sub", "set"], cap):   # `mul` would only grow the polynomials
+                calls.append('%s(Sym%d, %s, "%s");' % (cont, sz, tup(dims), s))
+    return {"key": "sse2/elemwrite", "header": "scalar_write.h", "isa": "sse2", "opt": "-O0", "defs": ["-DSW_SYM"], "calls": calls}
+
+def scalar_real_groups(tier, seed, rng):
+    quick = tier == "quick"
+    groups = []
+    for gi, isa in enumerate(["sse2", "avx512"] if quick else core.ALL_ISAS):
+        calls = []
+        for ti, (t, _) in enumerate(REAL_TYPES):
+            for rank, dims in SW_DIMS.items():
+                cont = "SWR" if (rank + ti + gi + seed) % 2 else "SWRM"
+                if not quick:
+                    conts = ["SWR", "SWRM"]
+                else:
+                    conts = [cont]
+                for cont in conts:
+                    cap = {1: 10**6, 2: 10**6, 3: 10**6, 4: 500, 5: 600}[rank] if quick else 10**6
+                    for k, s in enumerate(scalar_scripts(dims, rng, G.OPS5, cap)):
+                        calls.append('%s(%s, %s, %du, "%s");' % (cont, t, tup(dims), seed * 100 + k, s))
+        groups.append({"key": "real/%s/elemwrite" % isa, "header": "scalar_write.h", "isa": isa, "opt": "-O2",
+                       "defs": ["-ffp-contract=off"], "pre": "", "calls": calls})
+    return groups
 
 def diag_scripts(M, rng, count, ops):
     dst = "0_%d_1,0_%d_1" % (M, M)          # ignored by the diagonal view; kept for the line format
@@ -198,6 +246,7 @@ def real_groups(tier, seed):
                 calls = ['VWRD(%s, (%d), (%d,%d), %du, "%s");' % (t, M, M, M, seed * 1000 + k, s) for k, s in enumerate(sc)]
                 groups.append({"key": "real/%s/%s/vea0/diag" % (isa, t), "header": "view_write_real.h", "isa": isa, "opt": "-O2",
                                "defs": ["-ffp-contract=off"], "pre": "", "calls": calls})
+        groups += scalar_real_groups(tier, seed, random.Random(seed * 37 + 5))
     finally:
         G.REVERSED_P[0] = 0.0
     return only_filter(groups)
@@ -216,6 +265,10 @@ def run(tier, seed):
 
 def sym_call_of(inp):
     d = symrun.kv(inp)
+    if inp.startswith("sw "):
+        dims = tuple(int(x) for x in d["dims"].split("x"))
+        return {"key": "replay", "header": "scalar_write.h", "isa": d["cfg"], "opt": "-O0", "defs": ["-DSW_SYM"],
+                "calls": ['%s(Sym%s, %s, "%s");' % ("SWM" if d["cont"] == "map" else "SW", d["sz"], tup(dims), d["W"])]}
     dims = tuple(int(x) for x in d["dims"].split("x")); rd = tuple(int(x) for x in d["rd"].split("x"))
     g = {"key": "replay", "header": "view_write_sym.h", "isa": d["cfg"], "opt": "-O0",
          "defs": (["-DFASTOR_USE_VECTORISED_EXPR_ASSIGN"] if d.get("vea") == "1" else []) + (["-DFASTOR_NO_ALIAS=1"] if d.get("nal") == "1" else [])}
